@@ -1,7 +1,7 @@
 #!/bin/bash
 # usage: tools/seed_eval.sh <dir with patch.diff demo_test.go meta.json> <name> [validate]
 # 1. (validate) in a scratch worktree: demo passes without the patch; with the patch the suite passes and the demo fails
-# 2. applies the patch to /repo, runs every check (evidence redirected to a scratch dir), reverts /repo
+# 2. applies the patch to a scratch copy of /repo, runs every check there (tools/seed_matrix.sh)
 set -u
 export GOFLAGS=-mod=mod GOPROXY=off GOSUMDB=off GOTOOLCHAIN=local; unset GOWORK
 SRC=$(realpath $1); NAME=$2; MODE=${3:-validate}
@@ -24,13 +24,5 @@ if [ "$MODE" = validate ]; then
   echo "{\"demo_on_pristine_exit\":$P,\"suite_with_patch_exit\":$S,\"demo_with_patch_exit\":$D}" > $RES/validation.json
   rm -f /tmp/sv-$NAME.pristine /tmp/sv-$NAME.suite /tmp/sv-$NAME.patched
 fi
-[ -n "$(git -C /repo status --porcelain)" ] && { echo "/repo not clean"; exit 2; }
-git -C /repo apply $SRC/patch.diff || { echo "cannot apply to /repo"; exit 2; }
-mkdir -p /tmp/vs-seed; cp /verif/KNOWN_FINDINGS.txt /tmp/vs-seed/
-/verif/bin/otrcheck -property all -verif /tmp/vs-seed > /tmp/vs-seed/out.txt 2>&1
-git -C /repo checkout -- .
-grep -E '^C[0-9]+ tier' /tmp/vs-seed/out.txt | awk '{print $1, $NF=="", $0}' | grep -v 'violations=0' | sed 's/^/FIRES: /' | cut -c1-160
-grep -E '^  \[' /tmp/vs-seed/out.txt | cut -c1-220 | head -12
-grep -E '^  \[' /tmp/vs-seed/out.txt | sed -e 's/ — .*//' > $RES/detected_by.txt
-grep -E '^C[0-9]+ tier' /tmp/vs-seed/out.txt | grep -v 'violations=0' | awk '{print $1}' | tr '\n' ' ' > $RES/fires.txt
-echo "fired: $(cat $RES/fires.txt)"
+# which checks fire: on a scratch copy of /repo's working tree (never on /repo itself)
+/verif/tools/seed_matrix.sh seeded/$NAME | sed 's/^[^:]*: /fired: /'
